@@ -2,7 +2,7 @@ import LunaVerif.Core.Proto
 import LunaVerif.Model.Usb3.HeaderRx
 open LunaVerif LunaVerif.Proto LunaVerif.HeaderRx
 
-/-- config line: `# fix downstream`;
+/-- config line: `# fix downstream abort`;
 input line: `sink_valid sink_data sink_ctrl source_ready enable usb_reset queue_ready retry_received
 retry_required keepalive_required reject_power_state`;
 output line: `source_valid source_data source_ctrl queue_valid q_dw0 q_dw1 q_dw2 q_dw3 lrty_pending
@@ -18,7 +18,7 @@ def rxNum : RawRx.St → Nat
 
 def main : IO Unit :=
   runDriver (σ := Config × State)
-    (fun cfg => ({ fix := n2b (fld cfg 0), downstream := n2b (fld cfg 1) }, init))
+    (fun cfg => ({ fix := n2b (fld cfg 0), downstream := n2b (fld cfg 1), abort := n2b (fld cfg 2) }, init))
     (fun (c, s) i =>
       let inp : In :=
         { sink := ⟨n2b (fld i 0), fld i 1, fld i 2⟩, srcReady := n2b (fld i 3), enable := n2b (fld i 4),
